@@ -158,26 +158,36 @@ func Catalogue() []typ {
 			}
 		}
 	}
-	// leaves with one refused kind (exported / unexported / json:"-")
+	// leaves with one refused kind: always as an exported field, and for every
+	// other kind also as an unexported field or behind json:"-"
 	for i, bk := range badKinds {
-		nm := "B"
-		tag := ""
-		feat := "badkind:exported"
+		variants := []string{"exported"}
 		switch i % 3 {
 		case 1:
-			nm = "b"
-			feat = "badkind:unexported"
+			variants = append(variants, "unexported")
 		case 2:
-			tag = `json:"-"`
-			feat = "badkind:dash"
+			variants = append(variants, "dash")
 		}
-		all = append(all, typ{
-			Name:   fmt.Sprintf("L%d", len(all)),
-			Fields: []field{{Name: "A", Type: "int"}, {Name: nm, Type: bk, Tag: tag}},
-			Flavor: "none",
-			Feats:  []string{"leaf", "vis:E", "json:none", feat},
-			Path:   map[bool]string{true: "spec", false: "plain"}[i < 3],
-		})
+		for _, vr := range variants {
+			nm, tag := "B", ""
+			switch vr {
+			case "unexported":
+				nm = "b"
+			case "dash":
+				tag = `json:"-"`
+			}
+			path := "plain"
+			if i < 3 && vr == "exported" {
+				path = "spec"
+			}
+			all = append(all, typ{
+				Name:   fmt.Sprintf("L%d", len(all)),
+				Fields: []field{{Name: "A", Type: "int"}, {Name: nm, Type: bk, Tag: tag}},
+				Flavor: "none",
+				Feats:  []string{"leaf", "vis:E", "json:none", "badkind:" + vr},
+				Path:   path,
+			})
+		}
 	}
 	// leaves with json tags on accepted kinds
 	tagShapes := [][]field{
